@@ -179,6 +179,10 @@ def method_sig(d, mname="m"):
     return "fn %s(%s%s)%s" % (mname, RECV_DECL[d["recv"]], (", a: " + aty) if aty else "", (" -> " + rty) if rty else "")
 
 
+# group containers: the trait is the optional member of a group G { Mk; optional T }
+GROUP_CONTAINERS = {"ref": ["grpbox", "grpref", "grpmut", "grpas"], "pinref": ["grpbox", "grpref", "grpmut"],
+                    "mut": ["grpbox", "grpmut", "grpas"], "pinmut": ["grpbox", "grpmut"], "own": ["grpbox"]}
+
 # forwarding (`#[cglue_forward]`, `Fwd`) exists for by-reference receivers only
 # (a boxed `Fwd<&Imp>` is not offered: Imp holds a Cell, `&Imp` is not Send and the library rejects CBox<!Send>)
 FWD_CONTAINERS = {"ref": ["fwdmut", "fwdobj"], "mut": ["fwdmut", "fwdobj"]}
@@ -211,9 +215,12 @@ def render_def(k, d):
     tr, sig = render_trait(k, d)
     out.append(tr)
     out.append("    impl T for Imp {\n%s    }\n" % method_impl(d, sig))
+    # the same trait as the optional member of a group: reached through cast! / as_ref! / as_mut! of the group
+    out.append("    #[cglue_trait]\n    pub trait Mk {\n        fn mk(&self) -> i64;\n    }\n    impl Mk for Imp {\n        fn mk(&self) -> i64 { 7 }\n    }\n")
+    out.append("    cglue_trait_group!(G, Mk, { T });\n    cglue_impl_group!(Imp, G, { T });\n")
     # driver
     out.append("    pub fn run(rep: &mut Report) {\n")
-    out.append(driver_blocks(k, d, "m", CONTAINERS[d["recv"]] + (FWD_CONTAINERS[d["recv"]] if forwardable(d) else [])))
+    out.append(driver_blocks(k, d, "m", CONTAINERS[d["recv"]] + (FWD_CONTAINERS[d["recv"]] if forwardable(d) else []) + GROUP_CONTAINERS[d["recv"]]))
     out.append("    }\n}\n")
     return "".join(out)
 
@@ -253,6 +260,20 @@ def driver_blocks(k, d, mname, containers):
                     mk = "let imp0 = Imp::new(%d); let imp_addr = &imp0 as *const Imp as i64; let %sobj = trait_obj!(&imp0 as T);" % (s0, om)
                 elif cont == "mut":
                     mk = "let mut imp0 = Imp::new(%d); let imp_addr = &imp0 as *const Imp as i64; let %sobj = trait_obj!(&mut imp0 as T);" % (s0, om)
+                elif cont == "grpbox":
+                    mk = ("let b = Box::new(Imp::new(%d)); let imp_addr = &*b as *const Imp as i64; let g = group_obj!(CBox::<Imp>::from(b) as G); "
+                          "let %sobj = cast!(g impl T).expect(\"cast\");" % (s0, om))
+                elif cont == "grpref":
+                    mk = "let imp0 = Imp::new(%d); let imp_addr = &imp0 as *const Imp as i64; let g = group_obj!(&imp0 as G); let %sobj = cast!(g impl T).expect(\"cast\");" % (s0, om)
+                elif cont == "grpmut":
+                    mk = "let mut imp0 = Imp::new(%d); let imp_addr = &imp0 as *const Imp as i64; let g = group_obj!(&mut imp0 as G); let %sobj = cast!(g impl T).expect(\"cast\");" % (s0, om)
+                elif cont == "grpas":
+                    if d["recv"] == "mut":
+                        mk = ("let b = Box::new(Imp::new(%d)); let imp_addr = &*b as *const Imp as i64; let mut g = group_obj!(CBox::<Imp>::from(b) as G); "
+                              "let obj = as_mut!(g impl T).expect(\"as_mut\");" % s0)
+                    else:
+                        mk = ("let b = Box::new(Imp::new(%d)); let imp_addr = &*b as *const Imp as i64; let g = group_obj!(CBox::<Imp>::from(b) as G); "
+                              "let obj = as_ref!(g impl T).expect(\"as_ref\");" % s0)
                 elif cont == "fwdref":
                     mk = "let imp0 = Imp::new(%d); let imp_addr = &imp0 as *const Imp as i64; let %sobj = trait_obj!(CBox::from(Fwd(&imp0)) as T);" % (s0, om)
                 elif cont == "fwdmut":
@@ -263,7 +284,7 @@ def driver_blocks(k, d, mname, containers):
                           "let %sobj = trait_obj!(CBox::from(Fwd(&mut inner)) as T);" % (s0, om))
                 else:
                     mk = "let a0 = CArcSome::from(Imp::new(%d)); let imp_addr = &*a0 as *const Imp as i64; let %sobj = trait_obj!(a0 as T);" % (s0, om)
-                drop_after = "" if d["recv"] == "own" else "drop(obj);"
+                drop_after = "" if d["recv"] == "own" else ("drop(g);" if cont == "grpas" else "drop(obj);")
                 if cont == "ctxbox":
                     drop_after += " rep.ctx(%d, std::sync::Arc::strong_count(&keep));" % k
                 out.append(block(cont, mk, "obj", drop_after))
